@@ -464,6 +464,18 @@ def engine_E(name, kinds, sizes, lin_sizes, seed, wd_name=None):
                            {"op": "append", "q": 0, "o": 2}]
                     cases.append({"case": [kind, "app", n, pat, off], "kind": kind, "hasher": "std", "snap": 0, "universe": [],
                                   "steps": st2, "probes": [], "wit": []})
+        # growth sweep: a push of a NEW item measured at EVERY size 0..N (not only at powers of two: the tables grow
+        # at other sizes, e.g. 7 * 2^k), then the pops back down, for every pattern
+        nsweep = 1200 if max(sizes) <= 65536 else 8000
+        for pat in ("asc", "desc", "const", "rand"):
+            rs = random.Random(seed * 977 + len(pat))
+            def rank(i):
+                return {"asc": i, "desc": -i, "const": 0}.get(pat, rs.randint(-1000, 1000))
+            steps = [{"op": ["push", "push_increase", "push_decrease"][i % 3 if i % 7 == 0 else 0], "k": "s%d" % i, "r": rank(i)} for i in range(nsweep)]
+            pops = ["pop"] if kind == "pq" else ["pop_min", "pop_max"]
+            steps += [{"op": pops[i % len(pops)]} for i in range(nsweep // 2)]
+            cases.append({"case": [kind, "sweep", nsweep, pat], "kind": kind, "hasher": "std", "snap": 0, "universe": [],
+                          "steps": steps, "probes": [], "wit": []})
     f.samples.append({"engine": "E", "sizes": list(sizes), "linear_sizes": list(lin_sizes),
                       "patterns": ["asc", "desc", "const", "rand"], "first_measured_steps": cases[0]["steps"][:6]})
     f.stats["engines"].append({"engine": "E", "cases": len(cases), "sizes": list(sizes), "linear_sizes": list(lin_sizes)})
